@@ -283,6 +283,19 @@ class FailureAndRepair(object):
                 for o in option_vectors(True):
                     yield make_world(2, [['A', 'B']], req, dev, o)
             if 'borrowers' in sec:
+                # three deviations: the failure, a borrower that has the module, and a searcher that calls the (borrowed) copy
+                # in the destination up to date - what a second run over the same destination meets
+                for ans in sec['borrowers']:
+                    for m2, a in ans.get('ans', {}).items():
+                        if a != 'has':
+                            continue
+                        for honours in (True, False):
+                            dev3 = merge(dev, {'searchers': [{'honours_rebuild': honours, 'ans': {m2: 'fresh'}}]})
+                            if dev3 is None:
+                                continue
+                            for req in requests(2):
+                                for o in option_vectors(False):
+                                    yield make_world(2, [['A', 'B']], req, dev3, o)
                 # three deviations: the failure, a borrower answer, and a second failure on the other module
                 other = 'B' if block['m1'] == 'A' else 'A'
                 for fi in range(6):
